@@ -12,7 +12,7 @@ def sh(cmd, cwd=None, timeout=1500):
         return 124, (e.stdout or "") if isinstance(e.stdout, str) else "timeout"
 def main():
     pid, m = sys.argv[2], sys.argv[3]
-    src = "/tmp/mut/%s/out/%s" % (pid, m)
+    src = "%s/%s/out/%s" % (os.environ.get("MUT_BASE", "/tmp/mut"), pid, m)
     patch = src + "/patch.rebased.diff" if os.path.exists(src + "/patch.rebased.diff") else src + "/patch.diff"
     wt = "/tmp/hv/%s_%s" % (pid, m)
     os.makedirs("/tmp/hv", exist_ok=True)
